@@ -88,7 +88,8 @@ fn main() -> Result<()> {
               dup_coinbase: false,
               junk: true,
             };
-            r#gen::ledger(seed * 1000 + i, &format!("s{i}"), &cfg, &flags, &chain)
+            let tag = arg_value(&args, "--tag").unwrap_or("s".into());
+            r#gen::ledger(seed * 1000 + i, &format!("{tag}x{i}"), &cfg, &flags, &chain)
           }
           other => return Err(anyhow!("unknown family {other}")),
         };
